@@ -41,6 +41,9 @@ import (
 )
 
 var run *common.Run
+
+// ociAutoSave: the documented AutoSaveIndex option of the OCI store, chosen per history from its seed
+var ociAutoSave = true
 var ctx = context.Background()
 
 // ---------- identities shared with the model ----------
@@ -71,6 +74,7 @@ func isManifestMT(mt string) bool { id, ok := mtFixed[mt]; return ok && id >= 1 
 var annSets = []map[string]string{nil, {"verif.a": "x"}, {"verif.a": "y", "verif.b": "z"}}
 
 type universe struct {
+	mu     sync.Mutex // dig/mt allocate ids and are called from goroutines
 	g      *dag.Graph
 	digID  map[digest.Digest]int
 	mtDyn  map[string]int
@@ -87,6 +91,8 @@ func newUniverse(g *dag.Graph) *universe {
 }
 
 func (u *universe) dig(d digest.Digest) int {
+	u.mu.Lock()
+	defer u.mu.Unlock()
 	if id, ok := u.digID[d]; ok {
 		return id
 	}
@@ -99,6 +105,8 @@ func (u *universe) mt(s string) int {
 	if id, ok := mtFixed[s]; ok {
 		return id
 	}
+	u.mu.Lock()
+	defer u.mu.Unlock()
 	if id, ok := u.mtDyn[s]; ok {
 		return id
 	}
@@ -128,7 +136,27 @@ func nameIndex(name string) int {
 }
 
 // annID numbers annotation sets: 8*titleIndex + base set (0 none, 1, 2); 7 = unknown.
+// richFields: annotation-set id 3 stands for a descriptor that also carries ArtifactType,
+// Platform and URLs (Tag must keep them, Resolve must return them)
+func setRich(d *ocispec.Descriptor) {
+	d.ArtifactType = "application/vnd.verif.rich"
+	d.Platform = &ocispec.Platform{Architecture: "amd64", OS: "linux"}
+	d.URLs = []string{"https://example.invalid/blob"}
+}
+
+func isRich(d ocispec.Descriptor) bool {
+	return d.ArtifactType == "application/vnd.verif.rich" && d.Platform != nil && d.Platform.Architecture == "amd64" &&
+		d.Platform.OS == "linux" && len(d.URLs) == 1 && d.URLs[0] == "https://example.invalid/blob" && len(d.Data) == 0
+}
+
 func annID(d ocispec.Descriptor) int {
+	if isRich(d) {
+		d.URLs, d.Platform, d.ArtifactType = nil, nil, ""
+		if id := annID(d); id%8 == 0 {
+			return id + 3
+		}
+		return 7
+	}
 	if len(d.URLs) > 0 || d.Platform != nil || d.ArtifactType != "" || len(d.Data) > 0 {
 		return 7
 	}
@@ -213,6 +241,13 @@ func (u *universe) descOf(o Op) ocispec.Descriptor {
 		} else {
 			d.MediaType = "application/octet-stream"
 		}
+	}
+	if o.Ann == 3 {
+		setRich(&d)
+		if o.Name > 0 {
+			d.Annotations = map[string]string{ocispec.AnnotationTitle: fileNames[o.Name-1]}
+		}
+		return d
 	}
 	if o.Ann > 0 || o.Name > 0 {
 		d.Annotations = map[string]string{}
@@ -324,6 +359,7 @@ func newStore(kind string) (target, func()) {
 			panic(err)
 		}
 		s.AutoGC = false // AutoGC / GC belong to C09
+		s.AutoSaveIndex = ociAutoSave
 		return s, func() { os.RemoveAll(dir) }
 	}
 	if strings.HasPrefix(kind, "file") && len(kind) == 6 {
@@ -378,6 +414,7 @@ type result struct {
 	descs []ocispec.Descriptor
 	tags  []string
 	ok    bool
+	tagsAfter []string // Tags(last) for the last of the operation
 }
 
 func (u *universe) apply(t target, o Op) result {
@@ -449,6 +486,12 @@ func (u *universe) apply(t target, o Op) result {
 		if err != nil {
 			return result{tok: errTok(err), err: err}
 		}
+		var after []string
+		if o.Ref != "" { // Tags(last): judged by the oracle only (the model's Tags takes no argument)
+			if err := ft.Tags(ctx, o.Ref, func(ts []string) error { after = append(after, ts...); return nil }); err != nil {
+				return result{tok: errTok(err), err: err}
+			}
+		}
 		var rs [][2]int
 		for _, s := range tags {
 			rs = append(rs, refSortKey(u.refTok(s)))
@@ -458,7 +501,7 @@ func (u *universe) apply(t target, o Op) result {
 		for _, r := range rs {
 			toks = append(toks, refFromKey(r))
 		}
-		return result{tok: "L:" + strings.Join(toks, ";"), tags: tags}
+		return result{tok: "L:" + strings.Join(toks, ";"), tags: tags, tagsAfter: after}
 	}
 	panic("op kind " + o.K)
 }
@@ -568,6 +611,9 @@ func plainEq(a, b ocispec.Descriptor) bool {
 }
 
 func annEq(a, b ocispec.Descriptor) bool {
+	if isRich(a) != isRich(b) || a.ArtifactType != b.ArtifactType || len(a.URLs) != len(b.URLs) || (a.Platform == nil) != (b.Platform == nil) {
+		return false
+	}
 	if len(a.Annotations) != len(b.Annotations) {
 		return false
 	}
@@ -952,6 +998,18 @@ func (r *reference) judge(o Op, res result) *failure {
 		if res.err != nil || strings.Join(res.tags, "\x00") != strings.Join(want, "\x00") {
 			return fail("tags", "tags = %q, want %q", res.tags, want)
 		}
+		if o.Ref != "" {
+			run.Count("oci/pattern/tags-last")
+			var wantAfter []string
+			for _, t := range want {
+				if t > o.Ref {
+					wantAfter = append(wantAfter, t)
+				}
+			}
+			if strings.Join(res.tagsAfter, "\x00") != strings.Join(wantAfter, "\x00") {
+				return fail("tags-last", "tags after %q = %q, want %q", o.Ref, res.tagsAfter, wantAfter)
+			}
+		}
 	}
 	return nil
 }
@@ -1081,7 +1139,7 @@ func genOp(r *common.Rand, u *universe, kind string, h *hint) Op {
 		o.K = "T"
 		likelyPresent()
 		if r.Chance(1, 3) {
-			o.Ann = 1 + r.Intn(2)
+			o.Ann = 1 + r.Intn(3)
 		}
 		x := r.Intn(20)
 		switch {
@@ -1114,6 +1172,9 @@ func genOp(r *common.Rand, u *universe, kind string, h *hint) Op {
 		}
 	default:
 		o.K = "L"
+		if r.Chance(2, 3) {
+			o.Ref = common.Pick(r, u.refs) // Tags(last)
+		}
 	}
 	o.Node = node
 	isFile := strings.HasPrefix(kind, "file")
@@ -1159,6 +1220,10 @@ type histSpec struct {
 // ---------- sequential histories ----------
 
 func seqHistory(h histSpec) {
+	ociAutoSave = h.HSeed%3 != 0
+	if h.Kind == "oci" {
+		run.Count(fmt.Sprintf("oci/AutoSaveIndex=%v", ociAutoSave))
+	}
 	r := common.NewRand(h.HSeed)
 	u := genUniverse(r, h.Kind, false)
 	var ops []Op
@@ -1489,7 +1554,12 @@ func raceRound(h histSpec) {
 			}
 		}
 		run.Count(fmt.Sprintf("race-%s/successes=%d", h.Kind, okn))
-		if okn > 1 {
+		if okn > 1 && h.Kind == "oci" {
+			// os.Rename replaces an existing blob file on POSIX systems (the comment in storage.go expects
+			// a permission error): every racing push of the same descriptor succeeds
+			report("oci-racing-pushes-all-succeed", fmt.Sprintf("%d concurrent pushes of the same descriptor %s all succeeded", okn, o))
+		}
+		if okn > 1 && h.Kind != "oci" {
 			report("race-double-push-success", fmt.Sprintf("%d concurrent pushes of the same descriptor %s all succeeded: pushing content that is already present must be refused", okn, o))
 		}
 		base = int(clock.Load())
@@ -1558,7 +1628,7 @@ func main() {
 		for i := 0; i < nseq; i++ {
 			seqHistory(histSpec{Kind: kind, Mode: "seq", HSeed: run.Rand.U64() >> 12, NOps: nops})
 		}
-		if kind == "mem" || kind == "file00" {
+		if kind == "mem" || kind == "file00" || kind == "oci" {
 			for i := 0; i < run.Scale(60, 1500); i++ {
 				raceRound(histSpec{Kind: kind, Mode: "race", HSeed: run.Rand.U64() >> 12, NOps: 3 + run.Rand.Intn(3), Thr: 2 + run.Rand.Intn(3)})
 			}
@@ -1567,5 +1637,27 @@ func main() {
 			thr := 2 + run.Rand.Intn(3)
 			concHistory(histSpec{Kind: kind, Mode: "conc", HSeed: run.Rand.U64() >> 12, NOps: 6 + run.Rand.Intn(6), Thr: thr})
 		}
+	}
+	// coverage floors: a run in which a stream or a pattern the check relies on did not occur is a
+	// failure of the run (layer R), not a silent pass
+	floors := map[string]int{
+		"mem/P/ok": 100, "oci/P/ok": 100, "file00/P/ok": 100, "file01/P/ok": 100, "file10/P/ok": 20, "file11/P/ok": 20,
+		"oci/D/ok": 20, "oci/U/ok": 5, "oci/L/L": 20, "oci/pattern/delete-after-retag": 5, "oci/pattern/tags-last": 10,
+		"oci/AutoSaveIndex=false": 20, "oci/AutoSaveIndex=true": 20,
+		"file/pattern/restore-fails-traversal": 3, "file/alias-tainted-histories": 5,
+		"race-mem/successes=1": 20, "race-file00/successes=1": 20, "conc-mem/P": 50, "conc-oci/P": 50, "conc-file00/P": 50,
+		"mem/R/D": 50, "oci/R/D": 50, "file00/R/D": 20,
+	}
+	var missing []string
+	for k, min := range floors {
+		if run.Dist[k] < min {
+			missing = append(missing, fmt.Sprintf("%s=%d<%d", k, run.Dist[k], min))
+		}
+	}
+	if len(missing) > 0 {
+		sort.Strings(missing)
+		run.Finish()
+		fmt.Fprintln(os.Stderr, "coverage floor not reached: "+strings.Join(missing, " "))
+		os.Exit(3)
 	}
 }
